@@ -76,7 +76,7 @@ def case_value_roundtrip(ctx, setting):
 
 
 # --------------------------------------------------------------------------------------------- (b)
-def build_np24(ctx, shank_of, window, K, ns_min=577, post_check=False, compress=False, delete_original=False, ns_name="ns", fs_txt="30000", rng="0.5", maxint=8192):
+def build_np24(ctx, shank_of, window, K, ns_min=577, post_check=False, compress=False, delete_original=False, ns_name="ns", fs_txt="30000", rng="0.5", maxint=8192, flags=None):
     """original NP2.4 recording with symbolic length on a fresh fake fs; returns (converter, fs, ns, nc)"""
     import neuropixel
     n = len(shank_of)
@@ -85,7 +85,7 @@ def build_np24(ctx, shank_of, window, K, ns_min=577, post_check=False, compress=
     ov = 576
     ctx.assume(ns <= window + (K - 1) * (window - ov))
     T = core._as_real(ns) / Fraction(float(fs_txt))
-    txt = np2env.np24_meta_text(n, shank_of, sglx.S(T), extra=["fileSHA1=ABCDEF", f"fileSizeBytes={sglx.S(ns * nc * 2)}"], fs_txt=fs_txt, rng=rng, maxint=maxint)
+    txt = np2env.np24_meta_text(n, shank_of, sglx.S(T), extra=["fileSHA1=ABCDEF", f"fileSizeBytes={sglx.S(ns * nc * 2)}"], fs_txt=fs_txt, rng=rng, maxint=maxint, flags=flags)
     F = fakefs.install(fakefs.FakeFS())
     F.add("/s/probe00/x.imec0.ap.meta", True, len(txt), [{"pos": 0, "text": txt}])
     F.add("/s/probe00/x.imec0.ap.bin", True, ns * nc * 2, np2env.raw_array(ns, nc))
@@ -122,11 +122,13 @@ def check_split_file(ctx, F, path, ns, chns, what="ap", ratio=1):
     return np2env.records_view(recs, ncols)
 
 
-def case_split(ctx, mapname, window, K, fs_txt="30000", rerun=False):
+def case_split(ctx, mapname, window, K, fs_txt="30000", rerun=False, unflagged_shank=None):
     import spikeglx
     import neuropixel
     shank_of = MAPS[mapname]
-    conv, F, ns, nc = build_np24(ctx, shank_of, window, K, fs_txt=fs_txt)
+    # unflagged_shank: every site of that shank has its "used" flag at 0 in the shank map (still saved channels: they must be split too)
+    flags = None if unflagged_shank is None else [0 if s == unflagged_shank else 1 for s in shank_of]
+    conv, F, ns, nc = build_np24(ctx, shank_of, window, K, fs_txt=fs_txt, flags=flags)
     status = ctx.call("process", conv.process)
     ctx.oblige("status_is_one", status == 1, detail={"status": status})
     if rerun:
@@ -308,6 +310,7 @@ def cases(tier):
     for mp in b["maps"]:
         for w in b["windows"]:
             cs.append(Case(f"split_{mp}_w{w}", "case_split", {"mapname": mp, "window": w, "K": b["K"]}, timeout_s=2400))
+    cs.append(Case("split_interleaved_w1200_shank1_sites_unflagged", "case_split", {"mapname": "interleaved", "window": 1200, "K": 2, "unflagged_shank": 1}, timeout_s=2400))
     cs.append(Case("split_contig_w1200_rerun_overwrite", "case_split", {"mapname": "contig", "window": 1200, "K": 2, "rerun": True}, timeout_s=2400))
     for n in (2, 3, 4) if tier == "quick" else (2, 3, 4, 5, 6):
         cs.append(Case(f"chans_text_{n}", "case_chans_text_roundtrip", {"n": n}))
@@ -346,12 +349,12 @@ import sys, tempfile, pathlib, shutil
 sys.path.insert(0, '/verif')
 from symex import sglx, np2env
 import spikeglx, neuropixel
-def make(shank_of, ns, rng="0.5", maxint=8192, data=None, fs_txt="30000"):
+def make(shank_of, ns, rng="0.5", maxint=8192, data=None, fs_txt="30000", flags=None):
     d = pathlib.Path(tempfile.mkdtemp()) / 's' / 'probe00'; d.mkdir(parents=True)
     n = len(shank_of); nc = n + 1
     if data is None:
         rs = np.random.default_rng(0); data = rs.integers(-32768, 32767, size=(ns, nc)).astype(np.int16)
-    txt = np2env.np24_meta_text(n, shank_of, format(ns / float(fs_txt), '.12f'), rng=rng, maxint=maxint, extra=['fileSHA1=ABCDEF', f'fileSizeBytes={ns * nc * 2}'], fs_txt=fs_txt)
+    txt = np2env.np24_meta_text(n, shank_of, format(ns / float(fs_txt), '.12f'), rng=rng, maxint=maxint, extra=['fileSHA1=ABCDEF', f'fileSizeBytes={ns * nc * 2}'], fs_txt=fs_txt, flags=flags)
     (d / 'x.imec0.ap.meta').write_text(txt); data.tofile(d / 'x.imec0.ap.bin')
     return d, data
 '''
@@ -377,7 +380,8 @@ not_reproduced()
         return common + f"""
 shank_of = {MAPS[params['mapname']]}; ns = {ns}; window = {params['window']}
 if ns > 3_000_000: not_reproduced('too long to materialise')
-d, data = make(shank_of, ns, fs_txt={params.get('fs_txt', '30000')!r})
+unflagged = {params.get('unflagged_shank')!r}
+d, data = make(shank_of, ns, fs_txt={params.get('fs_txt', '30000')!r}, flags=None if unflagged is None else [0 if s == unflagged else 1 for s in shank_of])
 conv = neuropixel.NP2Converter(d / 'x.imec0.ap.bin', post_check=False, compress=False)
 conv.init_params(nwindow=window, extra='_t')
 try:
